@@ -22,11 +22,13 @@ def run(res, only=None):
         core.validate_trace(res, "Trace_C02", tr, cfg)
     # the same bound for the f64 types (and again for f32) with the polynomials defined in the specification (Trace_Poly.tla)
     core.record_and_validate(res, "poly", [c for c in cfgs if c in ("sse2", "scalar", "coresimd", "fma")], draws=8 if res.tier == "quick" else 300,
-                             module="Trace_Poly", chunks=1 if res.tier == "quick" else 8, expect_kinds=("poly",), ops=["dot", "cross", "perp_dot"])
+                             module="Trace_Poly", chunks=1 if res.tier == "quick" else 8, expect_kinds=("poly",),
+                             ops=["dot", "cross", "perp_dot", "lerp", "midpoint", "distance_squared", "reflect", "project_onto_normalized", "reject_from_normalized"])
     # code -> spec, relational: normalize family (unit within 16 u, parallel to the input) and the angle between parallel dense vectors
     # (finite, 0 or pi within the arccos conditioning) on random inputs, judged by TLC with exact dyadic arithmetic (Trace_Rel.tla)
     core.record_and_validate(res, "rel", [c for c in cfgs if c in ("sse2", "scalar", "coresimd", "libm", "fma")], draws=3 if res.tier == "quick" else 60,
-                             module="Trace_Rel", chunks=2 if res.tier == "quick" else 8, expect_kinds=("rel",), ops=["normalize", "angle_parallel"])
+                             module="Trace_Rel", chunks=2 if res.tier == "quick" else 8, expect_kinds=("rel",),
+                             ops=["normalize", "angle_parallel", "length", "distance", "length_recip", "project_onto", "reject_from"])
     res.rule = ("exact: dot/cross/perp_dot/length_squared/distance_squared/element_sum/product over pairs of integer 3-vectors in -2..2 (1/4 of the "
                 "15625 pairs in quick; all 117649 pairs over -3..3 in thorough) incl. parallel, anti-parallel, orthogonal and cancelling pairs; "
                 "length/length_recip/distance/normalize family on 12 Pythagorean tuples x power-of-two scales 2^-60..2^60 within 4 eps; the "
